@@ -278,7 +278,13 @@ class SegmMachine(Machine):
             p = rng.pick([0.0, 0.1, 0.3, 0.6, 1.0])
             g = rng.np()
             mask = g.random(shape) < p
-            args = {'mask': enc(mask), 'partial_overlap': rng.chance(0.5),
+            menc = enc(mask)
+            last = getattr(st, 'last_mask', None)
+            if last is not None and tuple(last['shape']) == tuple(shape) \
+                    and rng.chance(0.5):
+                menc = last          # the caller uses its mask again
+            st.last_mask = menc
+            args = {'mask': menc, 'partial_overlap': rng.chance(0.5),
                     'relabel': relabel}
         elif name == 'set_data':
             r = rng.random()
@@ -503,6 +509,20 @@ class SegmMachine(Machine):
                         kw[kname] = np.int64(v)
                     elif rep == 'smallint' and 0 <= v < 127:
                         kw[kname] = np.uint8(v)
+        mask_obj = None
+        if name == 'remove_masked_labels' and isinstance(kw.get('mask'),
+                                                         np.ndarray):
+            # one mask *object* per distinct mask content: a caller that
+            # uses its mask twice passes the same array twice
+            key = args['mask']['__npy__']
+            store = st.__dict__.setdefault('mask_store', {})
+            if key not in store:
+                store[key] = kw['mask']
+            else:
+                st.stats.probe('same_mask_object_reused')
+            mask_obj = store[key]
+            mask_before = mask_obj.copy()
+            kw['mask'] = mask_obj
         before = obj.data.copy()
         if name == 'set_data':
             def fn():
@@ -511,6 +531,11 @@ class SegmMachine(Machine):
             def fn():
                 return getattr(obj, name)(**kw)
         out = call(fn)
+        if mask_obj is not None and not np.array_equal(mask_obj,
+                                                       mask_before):
+            raise Violation('input_modified', 'mask',
+                            f'{op_short(op)} changed the mask array it was '
+                            'given')
         st.nmut += 1
         st.stats.sig(f'{",".join(cached)}|{name}|{args.get("relabel")}')
         if len(cached) >= 3:
